@@ -43,13 +43,16 @@ def run(chk):
         g = chk.tlc("Names", cfg(chk, "gen" + quotes[1], quotes, 3, emit=True), "generate: spellings with quote style " + quotes[1],
                     workers=1, coverage=False, timeout=3000)
         cs = g.cases("CASE")
+        if quotes[1] == "bt":
+            full_bt = list(cs)
         if quick:
             # stratified: every column / alias case (one-part names, few), a seeded sample of the table-name cases (1-3 parts, many)
-            small = [c for c in cs if len(c["wname"]) == 1 and c["wpos"] not in ("target", "from")]
-            big = [c for c in cs if not (len(c["wname"]) == 1 and c["wpos"] not in ("target", "from"))]
+            one = lambda c: len(c["wname"]) == 1 and (c["wpos"] not in ("target", "from") or len(c["rname"]) == 1)   # noqa: E731
+            small = [c for c in cs if one(c)]
+            big = [c for c in cs if not one(c)]
             rnd.shuffle(big)
             rnd.shuffle(small)
-            cs = small[:500] + big[:500]
+            cs = small[:700] + big[:500]
         cases += cs
         # quoted column names that contain a dot (one name all the same): the column cases again, where both spellings are quoted
         cases += [dict(c, dotted=True) for c in cs if c["rpos"] in ("next_stmt_colref", "next_stmt_colref_after_rename")
@@ -57,7 +60,7 @@ def run(chk):
     # bigquery's other spelling of a quoted path: one pair of backticks around the whole dotted name, `dbx.sch.tab` - the same
     # entity as the name quoted part by part (it splits at its dots all the same).  The table cases whose parts are all backtick
     # quoted once more with the written / the read / both names spelled that way
-    bq = [c for c in cases if (c["wpos"], c["rpos"]) in (("target", "next_stmt_from"), ("from", "from")) and not c.get("dotted")
+    bq = [c for c in full_bt if (c["wpos"], c["rpos"]) in (("target", "next_stmt_from"), ("from", "from")) and not c.get("dotted")
           and all(p["q"] == "bt" for p in list(c["wname"]) + list(c["rname"])) and (len(c["wname"]) >= 2 or len(c["rname"]) >= 2)]
     rnd.shuffle(bq)
     cases += [dict(c, whole=rnd.choice(["w", "r", "both"])) for c in bq[:300 if quick else 5000]]
